@@ -107,4 +107,7 @@ class Trace:
     def keys(self):
         """Structured keys every violation carries (used for known-finding matching)."""
         s = self.scen
-        return {"world": s["world"], "kind": s["kind"]}
+        k = s["kind"]
+        fam = ("dehb" if k == "dehb" else "sync" if k.startswith("sync") else "hb" if k.startswith("hb_") else
+               "fifo" if k.startswith("fifo") else k)
+        return {"world": s["world"], "kind": k, "family": fam}
